@@ -175,7 +175,9 @@ fn boundary_tweaks() -> Vec<Tweak> {
 /// 12 probe inputs for an accepted configuration.
 fn probe_corpus(block: usize) -> Vec<Arc<Audio>> {
     let mut v = vec![];
-    let len = (2 * block + 17).min(2500).max(70);
+    // final-frame lengths: below 16, below 64 (no prediction), and spread over 64..=192 where the
+    // entropy estimator's partitions (up to 64) become shorter than the predictor warm-up
+    const TAILS: [usize; 12] = [17, 64, 67, 80, 100, 127, 128, 150, 191, 192, 5, 257];
     let specs: [(usize, usize, &str); 12] = [
         (8, 1, "silence"),
         (8, 2, "noise_full"),
@@ -192,7 +194,13 @@ fn probe_corpus(block: usize) -> Vec<Arc<Audio>> {
     ];
     for (i, (bps, ch, fam)) in specs.iter().enumerate() {
         let mut rng = Rng::for_case(0xC07, "probe", i as u64);
-        let l = if i == 11 { block.min(2000) + 5 } else { len };
+        let l = if block <= 1200 {
+            block * (1 + i % 2) + TAILS[i] % block
+        } else if i % 2 == 0 {
+            1500 + TAILS[i]
+        } else {
+            TAILS[i]
+        };
         let mut samples = vec![0i32; l * ch];
         for c in 0..*ch {
             let chan = gen::gen_channel(&mut rng, fam, *bps, l);
@@ -688,6 +696,9 @@ enum Call {
     Frame(Case, usize),
     /// encode, serialise, parse with the crate's parser, re-serialise
     Parse(Case),
+    /// writes that fail part-way (sink error, unserialisable header) - always "returns" the empty
+    /// result; what matters is that the calls after it are unaffected
+    FailedWrites(u64),
 }
 
 impl Call {
@@ -697,6 +708,7 @@ impl Call {
             Call::StreamU64(c) => c.key() ^ 0x22,
             Call::Frame(c, k) => c.key() ^ 0x33 ^ ((*k as u64) << 20),
             Call::Parse(c) => c.key() ^ 0x44,
+            Call::FailedWrites(k) => crate::prng::mix(*k) ^ 0x55,
         }
     }
     fn describe(&self) -> serde_json::Value {
@@ -705,12 +717,17 @@ impl Call {
             Call::StreamU64(c) => json!({"call": "stream->MemSink<u64>", "case": c.describe()}),
             Call::Frame(c, k) => json!({"call": "frame", "block_index": k, "case": c.describe()}),
             Call::Parse(c) => json!({"call": "stream->bytes->parser->bytes", "case": c.describe()}),
+            Call::FailedWrites(k) => json!({"call": "1-4 writes that fail part-way (failing sink at a random operation / header with start sample >= 2^36)", "seed": k}),
         }
     }
     /// Executes the call on the current thread; result = bytes or an error string.
     fn exec(&self) -> Result<Vec<u8>, String> {
         let r = catch(|| -> Result<Vec<u8>, String> {
             match self {
+                Call::FailedWrites(k) => {
+                    crate::poison::failing_writes(&mut Rng(*k));
+                    Ok(vec![])
+                }
                 Call::Stream(c) | Call::StreamU64(c) | Call::Parse(c) => {
                     let v = enc::verified(&c.cfg)?;
                     let src = TestSource::new(Arc::clone(&c.audio), c.mode, c.hint);
@@ -838,7 +855,8 @@ pub fn run_c10(ctx: &Ctx) -> i32 {
         let mut calls = vec![];
         for _ in 0..len {
             let c = rng.pick(&pool).clone();
-            calls.push(match rng.usize_below(8) {
+            calls.push(match rng.usize_below(9) {
+                8 => Call::FailedWrites(rng.next_u64()),
                 0 => Call::StreamU64(c),
                 1 | 2 => {
                     let k = rng.usize_below(2);
@@ -859,6 +877,7 @@ pub fn run_c10(ctx: &Ctx) -> i32 {
                 Call::StreamU64(_) => "calls_stream_u64",
                 Call::Frame(..) => "calls_frame",
                 Call::Parse(_) => "calls_parse",
+                Call::FailedWrites(_) => "calls_failed_writes",
             });
             if got != *want {
                 let what = match (&got, &*want) {
@@ -869,6 +888,7 @@ pub fn run_c10(ctx: &Ctx) -> i32 {
                     Call::Stream(_) | Call::StreamU64(_) => "stream",
                     Call::Frame(..) => "frame",
                     Call::Parse(_) => "parse",
+                    Call::FailedWrites(_) => "failed-writes",
                 };
                 out.violation(
                     format!("C10|history-dependent|{kind}"),
@@ -949,7 +969,8 @@ pub fn mini_c10(ctx: &Ctx, scale: u64, out: &mut Outcome) {
         }
         for i in 0..5 {
             let c = rng.pick(&pool).clone();
-            let call = match rng.usize_below(5) {
+            let call = match rng.usize_below(6) {
+                5 => Call::FailedWrites(rng.next_u64()),
                 0 => Call::StreamU64(c),
                 1 => Call::Frame(c, rng.usize_below(2)),
                 2 => Call::Parse(c),
